@@ -87,7 +87,7 @@ var (
 	reFuncLit = regexp.MustCompile(`^funclit\s+(?:\(\s*(\*?\s*[A-Za-z_][A-Za-z0-9_]*)\s*\)\s*\.\s*)?([A-Za-z_][A-Za-z0-9_]*)\s*#\s*(\d+)`)
 	reLoop    = regexp.MustCompile(`^loop\s+(\d+)\s+(invariant|unroll|decreases)\s*(.*)$`)
 	reOnCall  = regexp.MustCompile(`^on\s+call\s+(.+?)(?:#(\d+))?(?:\s+returning\s+([A-Za-z_][A-Za-z0-9_.]*))?\s*:\s*([A-Za-z_][A-Za-z0-9_]*)\s*=\s*(.*)$`)
-	reOnAssign = regexp.MustCompile(`^on\s+assign\s+(.+?)\s*:\s*([A-Za-z_][A-Za-z0-9_]*)\s*=\s*(.*)$`)
+	reOnAssign = regexp.MustCompile(`^on\s+assign\s+(.+?)(?:#(\d+))?\s*:\s*([A-Za-z_][A-Za-z0-9_]*)\s*=\s*(.*)$`)
 	reBefCall = regexp.MustCompile(`^before\s+call\s+(.+?)(?:#(\d+))?\s*:\s*assert\s+(.*)$`)
 	reBefRet  = regexp.MustCompile(`^before\s+return(?:\s+(nil|err))?\s*:\s*assert\s+(.*)$`)
 	reGhost   = regexp.MustCompile(`^ghost\s+var\s+([A-Za-z_][A-Za-z0-9_]*)\s+(\S+)\s*=\s*(.*)$`)
@@ -219,7 +219,8 @@ func ParseContractFile(path string) (*ContractFile, error) {
 			if m == nil {
 				return nil, fmt.Errorf("%s:%d: bad on-assign directive", path, ln+1)
 			}
-			d.Kind, d.CallText, d.Name, d.Expr = "onassign", normCallText(m[1]), m[2], m[3]
+			d.Kind, d.CallText, d.Name, d.Expr = "onassign", normCallText(m[1]), m[3], m[4]
+			d.CallOrd, _ = strconv.Atoi(m[2])
 		case strings.HasPrefix(text, "on call "):
 			m := reOnCall.FindStringSubmatch(text)
 			if m == nil {
@@ -239,6 +240,11 @@ func ParseContractFile(path string) (*ContractFile, error) {
 			// forgotten, its result is unknown): neither inlined nor used by contract, so
 			// its preconditions are not obligations of this function
 			d.Kind, d.CallText = "havoccall", normCallText(strings.TrimSpace(strings.TrimPrefix(text, "havoc call ")))
+		case strings.HasPrefix(text, "appendlike call "):
+			// ASSUMPTION (listed in the evidence): the named call follows Go's append idiom
+			// func(dst []T, ...) []T: the slice it returns (its first result) lies in the
+			// memory of its first argument or in freshly allocated memory
+			d.Kind, d.CallText = "appendlike", normCallText(strings.TrimSpace(strings.TrimPrefix(text, "appendlike call ")))
 		case strings.HasPrefix(text, "frame call "):
 			// ASSUMPTION (listed in the evidence): the named call, which is code outside the
 			// engine's view (an interface method of a user-supplied object, say), changes
@@ -538,6 +544,9 @@ func pvc_suffix(a, b []byte) bool { return true }
 
 // pvc_same(a, b): the same byte string.
 func pvc_same(a, b []byte) bool { return true }
+
+// pvc_overlap(a, b): a and b may share memory (they lie in the same allocation).
+func pvc_overlap[T any](a, b []T) bool { return true }
 
 // pvc_local(s): s is nil/empty-capacity or lives in memory this function allocated
 // itself (so it cannot overlap anything that existed when the function was entered).
